@@ -34,6 +34,7 @@ package dsd
 //@ func DecompressAndLoad
 //@   modifies *
 //@   ensures elems(data) == old(elems(data))
+//@   ensures !(compression == 0 || compression == 90) ==> err != nil
 
 // decoders do not modify their input (assumed for every GenCodeCompatible implementation)
 //@ func GenCodeCompatible.GenCodeUnmarshal
@@ -77,3 +78,27 @@ package dsd
 //@ func MimeLoad
 //@   modifies *
 //@   ensures err == nil ==> format != 0
+
+// ---- compression wrapper: the identifier written is the compression actually used
+//@ func DumpAndCompress
+//@   modifies *
+//@   ensures !(compression == 0 || compression == 90) ==> r1 != nil
+//@   at call varint.Pack8 assert arg0 == (compression == 0 ? old(DefaultCompressionFormat) : compression)
+//@   at call Dump assert arg1 == format
+
+// ---- HTTP: the content type names the encoding actually used
+//@ func RequestHTTPResponseFormat
+//@   requires r != nil
+//@   modifies *
+//@   ensures err == nil ==> mimeType == old(FormatToMimeType[format])
+
+//@ func DumpToHTTPRequest
+//@   requires r != nil
+//@   modifies *
+//@   at call dumpWithoutIdentifier assert arg1 == format
+//@   at call (Header).Set assert arg2 == mimeType
+
+//@ func DumpToHTTPResponse
+//@   requires r != nil && w != nil
+//@   modifies *
+//@   at call (Header).Set assert arg2 == mimeType
